@@ -48,8 +48,13 @@ def generate(repo, emit, src, func_body):
         emit('hdr_alloc_enum', None)
         return
 
+    for nm in ('Static', 'Stack', 'Heap', 'Data'):
+        emit('hdr_code_' + nm.lower(), 'Definition hdr_code_%s : nat := %d.' % (nm.lower(), enum['Alloc' + nm]))
+
     def code(name):
         return enum.get(name)
+
+    EXN = {'ResourceError': 0, 'ValueError': 1}
 
     # ---------------------------------------------------------------- header_init call sites
     sites = []
@@ -95,6 +100,24 @@ def generate(repo, emit, src, func_body):
     emit('hdr_sites', ('Definition hdr_sites : list (string * string * nat) := [%s]%%string.' %
                        '; '.join('(%s, %s, %d)' % (coq_str(a), coq_str(b), c) for a, b, c in sites)) if ok else None)
 
+    emit('hdr_sites_count', 'Definition hdr_sites_count : nat := %d.' % len(sites) if ok else None)
+    # the constructor binds the type expression of each site to the constructor argument the model assumes
+    binds = {
+        'array_elem': ('Array_Alloc', 'a->type', 'src/Array.c', r'a->type\s*=\s*cast\(get\(args,\s*\$I\(0\)\),\s*Type\);'),
+        'list_elem': ('List_Alloc', 'l->type', 'src/List.c', r'l->type\s*=\s*cast\(get\(args,\s*\$I\(0\)\),\s*Type\);'),
+        'table_key': ('Table_Set_Move', 't->ktype', 'src/Table.c', r't->ktype\s*=\s*cast\(get\(args,\s*\$\(Int,\s*0\)\),\s*Type\);'),
+        'table_val': ('Table_Set_Move', 't->vtype', 'src/Table.c', r't->vtype\s*=\s*cast\(get\(args,\s*\$\(Int,\s*1\)\),\s*Type\);'),
+        'tree_key': ('Tree_Alloc', 'm->ktype', 'src/Tree.c', r'm->ktype\s*=\s*get\(args,\s*\$I\(0\)\);'),
+        'tree_val': ('Tree_Alloc', 'm->vtype', 'src/Tree.c', r'm->vtype\s*=\s*get\(args,\s*\$I\(1\)\);'),
+        'alloc_by': ('alloc_by', 'type', None, None),
+        'type_alloc': ('Type_Alloc', 'Type', None, None),
+        'alloc_stack': ('alloc_stack', 'T', None, None),
+    }
+    for key, (fn, te, file, pat) in binds.items():
+        hit = [c for (f, t, c) in sites if f == fn and t == te]
+        good = ok and len(hit) == 1 and (pat is None or re.search(pat, src(file)))
+        emit('hdr_site_' + key, ('Definition hdr_site_%s : nat := %d.   (* %s: header_init(., %s, .) *)' % (key, hit[0], fn, te)) if good else None)
+
     m = re.search(r'#define\s+\$\(T,\s*\.\.\.\)\s*\(\(struct T\*\)memcpy\(\s*\\?\s*alloc_stack\(T\),\s*'
                   r'&\(\(struct T\)\{__VA_ARGS__\}\),\s*sizeof\(struct T\)\)\)', h)
     emit('hdr_dollar_via_alloc_stack', 'Definition hdr_dollar_via_alloc_stack : bool := true.' if m else None)
@@ -127,8 +150,8 @@ def generate(repo, emit, src, func_body):
         if fr < 0 or any(code(c) is None for _, c, _ in refs):
             emit('hdr_dealloc_refuses', None)
         else:
-            emit('hdr_dealloc_refuses', 'Definition hdr_dealloc_refuses : list (nat * string) := [%s]%%string.' %
-                 '; '.join('(%d, %s)' % (code(c), coq_str(e)) for _, c, e in refs))
+            emit('hdr_dealloc_refuses', 'Definition hdr_dealloc_refuses : list (nat * nat) := [%s].   (* (class, 0 = ResourceError | 1 = ValueError | 2 = other) *)' %
+                 '; '.join('(%d, %d)' % (code(c), EXN.get(e, 2)) for _, c, e in refs))
             first = all(p < fr and (scr < 0 or p < scr) for p, _, _ in refs)
             emit('hdr_dealloc_check_first', 'Definition hdr_dealloc_check_first : bool := %s.' % ('true' if first else 'false'))
             emit('hdr_dealloc_custom_first', 'Definition hdr_dealloc_custom_first : bool := %s.' %
@@ -160,8 +183,9 @@ def generate(repo, emit, src, func_body):
     b = func_body(a, r'static\s+var\s+alloc_by\s*\(\s*var\s+type\s*,\s*int\s+method\s*\)\s*\{')
     m = b and re.search(r'case\s+ALLOC_STANDARD:\s*#ifndef\s+CELLO_NGC\s*set\(current\(GC\),\s*self,\s*\$I\((\d)\)\);\s*#endif\s*break;\s*'
                         r'case\s+ALLOC_RAW:\s*break;\s*case\s+ALLOC_ROOT:\s*#ifndef\s+CELLO_NGC\s*set\(current\(GC\),\s*self,\s*\$I\((\d)\)\);\s*#endif\s*break;', b)
-    emit('hdr_alloc_by', ('Definition hdr_alloc_by : list (string * option nat) := '
-                          '[("standard", Some %s); ("raw", None); ("root", Some %s)]%%string.' % (m.group(1), m.group(2))) if m else None)
+    emit('hdr_alloc_by', ('Definition hdr_alloc_by_standard : option nat := Some %s.\n'
+                          'Definition hdr_alloc_by_raw : option nat := None.\n'
+                          'Definition hdr_alloc_by_root : option nat := Some %s.' % (m.group(1), m.group(2))) if m else None)
     cust = b and re.search(r'if\s*\(\s*a\s+and\s+a->alloc\s*\)\s*\{\s*self\s*=\s*a->alloc\(\);\s*\}\s*else\s*\{', b)
     emit('hdr_alloc_custom_first', 'Definition hdr_alloc_custom_first : bool := true.' if cust else None)
     b = func_body(a, r'\bvar\s+copy\s*\(\s*var\s+self\s*\)\s*\{')
@@ -193,6 +217,18 @@ def generate(repo, emit, src, func_body):
         okg = False
     emit('hdr_guards', ('Definition hdr_guards : list (string * list nat) := [%s]%%string.' %
                         '; '.join('(%s, [%s])' % (coq_str(n), '; '.join(map(str, cl))) for n, cl in guards)) if okg else None)
+    gd = dict(guards)
+    for n in ('String_Del', 'String_Assign', 'String_Concat', 'String_Resize', 'String_Format_To',
+              'Tuple_Del', 'Tuple_Assign', 'Tuple_Push', 'Tuple_Pop', 'Tuple_Push_At', 'Tuple_Pop_At',
+              'Tuple_Concat', 'Tuple_Resize'):
+        emit('hdr_guard_' + n.lower(), ('Definition hdr_guard_%s : list nat := [%s].' % (n.lower(), '; '.join(map(str, gd[n]))))
+             if n in gd else None)
+    # every function that frees/reallocates the buffer is one the model knows
+    emit('hdr_guards_count', 'Definition hdr_guards_count : nat := %d.' % len(guards))
+    # Tuple_Rem reaches the buffer only through Tuple_Pop_At
+    tb = func_body(src('src/Tuple.c'), r'static\s+void\s+Tuple_Rem\s*\(\s*var\s+self\s*,\s*var\s+item\s*\)\s*\{')
+    emit('hdr_tuple_rem_via_pop_at', 'Definition hdr_tuple_rem_via_pop_at : bool := true.'
+         if tb and re.search(r'Tuple_Pop_At\(', tb) and not re.search(r'realloc|free\(|memmove', tb) else None)
 
     # ---------------------------------------------------------------- collector
     g = src('src/GC.c')
